@@ -549,7 +549,7 @@ func (g *qgen) cheapSteps() int64 {
 	if g.quick {
 		return 20000
 	}
-	return stepLimit
+	return 60000
 }
 
 func (g *qgen) numRange() *Q {
@@ -667,15 +667,25 @@ func (g *qgen) geoCentre() (lon, lat float64) {
 	return p[0], p[1]
 }
 
+// Geo queries are dear: a box is searched cell by cell (0.1 ms for 0.01 degrees, 20 ms for one
+// degree, 200 ms for 20 degrees on the busy build machine), a distance query searches the box
+// around its circle - and when a pole lies inside the circle that box spans all longitudes (100 ms
+// for one metre at the pole, above a second for 12 km).  Sizes are kept small, pole circles rare.
 func (g *qgen) geoBox() *Q {
 	t := g.t
 	lon, lat := g.geoCentre()
 	sizes := []float64{0.0005, 0.004, 0.03, 0.2}
 	if !g.quick {
-		sizes = append(sizes, 1, 5, 40)
+		sizes = append(sizes, 1, 3)
 	}
-	w := pick(t, sizes, "boxW") * float64(rapid.IntRange(1, 4).Draw(t, "boxWMul"))
-	h := pick(t, sizes, "boxH") * float64(rapid.IntRange(1, 4).Draw(t, "boxHMul"))
+	side := func(label string) float64 {
+		s := pick(t, sizes, label)
+		if s >= 1 {
+			return s * float64(rapid.IntRange(1, 2).Draw(t, label+"Mul"))
+		}
+		return s * float64(rapid.IntRange(1, 4).Draw(t, label+"Mul"))
+	}
+	w, h := side("boxW"), side("boxH")
 	// the centre is placed off the middle so that points sit at various distances from the edges
 	fx := float64(rapid.IntRange(0, 10).Draw(t, "boxFx")) / 10
 	fy := float64(rapid.IntRange(0, 10).Draw(t, "boxFy")) / 10
@@ -703,9 +713,21 @@ func (g *qgen) geoDist() *Q {
 	lat = clamp(lat+float64(rapid.IntRange(-20, 20).Draw(t, "distDLat"))/1000, -90, 90)
 	dists := []string{"1m", "150m", "2km", "5000", "3mi", "12km", "0.5nm", "4000ft"}
 	if !g.quick {
-		dists = append(dists, "60km", "400km", "2500km")
+		dists = append(dists, "60km")
 	}
 	d := pick(t, dists, "dist")
+	if math.Abs(lat) > 80 {
+		// close to a pole even a modest circle spans many degrees of longitude
+		d = pick(t, []string{"1m", "150m", "2km", "0.5nm", "4000ft"}, "polarDist")
+	}
+	if math.Abs(lat) > 89 {
+		// a circle around (or over) a pole
+		if !g.quick && g.flip(8, "poleCircle") {
+			d = pick(t, []string{"1m", "150m", "2km"}, "poleDist")
+		} else {
+			lat = math.Copysign(89, lat) - math.Copysign(float64(rapid.IntRange(0, 100).Draw(t, "offPole"))/100, lat)
+		}
+	}
 	if g.reject && g.flip(3, "distBad") {
 		d = pick(t, []string{"5 parsecs", "km", ""}, "distBadText")
 	}
